@@ -178,6 +178,13 @@ macro_rules! block_end_deep {
     ($name:ident, $n:expr, $start:expr, $avx2:path) => {
         kernel!($name, $avx2, {
             let b: [u8; $n] = kani::any();
+            // one representative per byte class this kernel distinguishes (space, LF, CR,
+            // anything else); the arbitrary-byte instances above cover the classification itself
+            let mut q = 0;
+            while q < $n {
+                kani::assume(b[q] == b' ' || b[q] == b'\n' || b[q] == b'\r' || b[q] == b'x');
+                q += 1;
+            }
             let mi: usize = kani::any();
             kani::assume(mi >= 15 && mi <= 24);
             let got = simd::find_block_scalar_end(&b, $start, mi);
